@@ -596,7 +596,12 @@ func (p *Proxy) handle(ctx *Context, conn net.Conn, brw *bufio.ReadWriter) error
 		}
 	}
 
-	req.URL.Scheme = "http"
+	// An origin-form target has no scheme: it is http on a plain connection. A
+	// scheme the client stated in an absolute-form target (https) is the
+	// client's choice of origin and is kept.
+	if req.URL.Scheme == "" {
+		req.URL.Scheme = "http"
+	}
 	if session.IsSecure() {
 		log.Infof("martian: forcing HTTPS inside secure session")
 		req.URL.Scheme = "https"
